@@ -45,6 +45,7 @@ var whitelist = []entry{
 	{file: "validator.go", name: "min"},
 	{file: "validator.go", name: "ComparePath"},
 	{file: "validator.go", name: "HandleChange", recv: "Validator", state: true},
+	{file: "hardlinks.go", name: "HandleChange", recv: "Hardlinks", state: true},
 	{file: "stat_unix.go", name: "major"},
 	{file: "stat_unix.go", name: "minor"},
 	{file: "filter.go", name: "patternWithoutTrailingGlob"},
@@ -85,6 +86,7 @@ const (
 	kUntyped       // untyped integer constant
 	kNil           // the identifier nil
 	kSlice         // []T, T a struct type of the package -> list T (name = T); nil and empty are not distinguished
+	kStrSet        // map[string]struct{} -> list (list N) used as a set (no iteration, no len: order and duplicates unobservable)
 	kFileInfo      // os.FileInfo -> Prims.FileInfo (a record of what its methods return)
 	kTime          // time.Time -> Prims.time: the (sec, nsec) pair given to time.Unix
 	kStruct        // *T, T a struct type of the package whose fields are all in the subset -> a generated Record
@@ -98,7 +100,7 @@ type Ty struct {
 }
 
 func (t Ty) eq(u Ty) bool {
-	return t.k == u.k && t.bits == u.bits && ((t.k != kStruct && t.k != kSlice) || (t.name == u.name && t.opt == u.opt))
+	return t.k == u.k && t.bits == u.bits && ((t.k != kStruct && t.k != kSlice) || (t.name == u.name && t.opt == u.opt)) && (t.k != kStat || t.opt == u.opt)
 }
 
 func (t Ty) coq() string {
@@ -127,7 +129,9 @@ func (t Ty) coq() string {
 	case kSlice:
 		return "list " + ident(t.name)
 	case kFileInfo:
-		return "Prims.FileInfo"
+		return "Prims.FileInfo Stat.stat"
+	case kStrSet:
+		return "list (list N)"
 	}
 	return "?"
 }
@@ -164,6 +168,8 @@ func (t Ty) String() string {
 		return "[]" + t.name
 	case kFileInfo:
 		return "os.FileInfo"
+	case kStrSet:
+		return "map[string]struct{}"
 	}
 	return "invalid"
 }
@@ -235,6 +241,7 @@ type variable struct {
 	name string
 	ty   Ty
 	coq  string // Gallina name: the Go name, or name__<k> for a variable that shadows one of an enclosing scope
+	kb   int    // a bool whose value is known on this path (the ok of a type assertion): 1 true, 2 false, 0 unknown
 }
 
 // env: stack of scopes, innermost last; each scope an ordered list of variables
@@ -301,13 +308,35 @@ func (e *env) declare(n ast.Node, name string, ty Ty) error {
 			return nil
 		}
 	}
-	e.scopes[top] = append(e.scopes[top], variable{name, ty, coq})
+	e.scopes[top] = append(e.scopes[top], variable{name: name, ty: ty, coq: coq})
 	return nil
 }
 
 // declareAs: a variable of the outermost scope with a given Gallina name (the fields of a state receiver)
 func (e *env) declareAs(name string, ty Ty, coq string) {
-	e.scopes[0] = append(e.scopes[0], variable{name, ty, coq})
+	e.scopes[0] = append(e.scopes[0], variable{name: name, ty: ty, coq: coq})
+}
+
+// setKnown / known: the value of a bool variable that is fixed on the current path
+func (e *env) setKnown(name string, kb int) {
+	for i := len(e.scopes) - 1; i >= 0; i-- {
+		for j := len(e.scopes[i]) - 1; j >= 0; j-- {
+			if e.scopes[i][j].name == name {
+				e.scopes[i][j].kb = kb
+				return
+			}
+		}
+	}
+}
+func (e *env) known(name string) int {
+	for i := len(e.scopes) - 1; i >= 0; i-- {
+		for j := len(e.scopes[i]) - 1; j >= 0; j-- {
+			if e.scopes[i][j].name == name {
+				return e.scopes[i][j].kb
+			}
+		}
+	}
+	return 0
 }
 
 // retype changes the type of the innermost variable called name (nil-ness refinement under a guard)
@@ -494,6 +523,9 @@ func (t *tr) record(n ast.Node, name string) error {
 		if ftys[i].k == kSlice {
 			z, ok = "(@nil "+ident(ftys[i].name)+")", true
 		}
+		if ftys[i].k == kStrSet {
+			z, ok = "(@nil (list N))", true
+		}
 		if !ok {
 			allZero = false
 			break
@@ -626,6 +658,12 @@ func (t *tr) typeOf(e ast.Expr) (Ty, error) {
 		if p, ok := x.X.(*ast.Ident); ok && p.Name == "os" && x.Sel.Name == "FileInfo" {
 			return Ty{k: kFileInfo}, nil
 		}
+	case *ast.MapType:
+		if k, ok := x.Key.(*ast.Ident); ok && k.Name == "string" {
+			if st, ok := x.Value.(*ast.StructType); ok && (st.Fields == nil || len(st.Fields.List) == 0) {
+				return Ty{k: kStrSet}, nil
+			}
+		}
 	case *ast.StarExpr:
 		if id, ok := x.X.(*ast.Ident); ok && t.pkg != nil {
 			if id.Name == "Stat" && t.pkg.name == "types" {
@@ -696,6 +734,8 @@ func (t *tr) conv(n ast.Node, v val, ty Ty) (string, error) {
 			return "(@nil (list N))", nil
 		case kSlice:
 			return "(@nil " + ident(ty.name) + ")", nil
+		case kStrSet:
+			return "(@nil (list N))", nil
 		case kError:
 			return "(@None (list N))", nil
 		}
@@ -804,6 +844,9 @@ func (t *tr) expr(e ast.Expr, ev *env) (val, error) {
 		r, err := t.expr(x.X, ev)
 		if err != nil {
 			return val{}, err
+		}
+		if r.ty.k == kStat && r.ty.opt {
+			return val{}, bad(e, "field read through %s, which is nil here (failed type assertion)", r.code)
 		}
 		if r.ty.k == kStat {
 			if f, ok := statFields[x.Sel.Name]; ok {
@@ -1135,6 +1178,20 @@ func (t *tr) binary(x *ast.BinaryExpr, ev *env) (val, error) {
 		case token.GEQ:
 			return val{code: "(Prims.i64_leb " + bc + " " + ac + ")", ty: boolT}, nil
 		}
+	case kStrSet:
+		// m == nil: nil and empty maps are not distinguished (a write to a nil map panics in Go: not modelled)
+		if a.ty.k == kNil || b.ty.k == kNil {
+			e := ac
+			if a.ty.k == kNil {
+				e = bc
+			}
+			switch op {
+			case token.EQL:
+				return val{code: "(Prims.map_is_nil " + e + ")", ty: boolT}, nil
+			case token.NEQ:
+				return val{code: "(negb (Prims.map_is_nil " + e + "))", ty: boolT}, nil
+			}
+		}
 	case kSlice, kStrSlice:
 		// s == nil: nil and empty slices are not distinguished by the representation (README)
 		if a.ty.k == kNil || b.ty.k == kNil {
@@ -1451,6 +1508,11 @@ func (t *tr) call(x *ast.CallExpr, ev *env, allowOpt bool) (val, error) {
 			}
 			return val{}, bad(x, "append on %s", s.ty)
 		case "make":
+			if len(x.Args) >= 1 {
+				if ty, err := t.typeOf(x.Args[0]); err == nil && ty.k == kStrSet {
+					return val{code: "(@nil (list N))", ty: ty}, nil // the empty map (a size hint is irrelevant)
+				}
+			}
 			if len(x.Args) >= 2 {
 				ty, err := t.typeOf(x.Args[0])
 				if err != nil {
@@ -1571,6 +1633,9 @@ func (t *tr) call(x *ast.CallExpr, ev *env, allowOpt bool) (val, error) {
 		}
 		if r.ty.k == kFileInfo && f.Sel.Name == "IsDir" && len(x.Args) == 0 {
 			return val{code: "(Prims.fi_IsDir " + r.code + ")", ty: Ty{k: kBool}}, nil
+		}
+		if r.ty.k == kFileInfo && f.Sel.Name == "Mode" && len(x.Args) == 0 {
+			return val{code: "(Prims.fi_Mode " + r.code + ")", ty: Ty{k: kUint, bits: 32, name: "os.FileMode"}}, nil
 		}
 		if r.ty.k == kUint && r.ty.name == "os.FileMode" && f.Sel.Name == "IsDir" && len(x.Args) == 0 {
 			return val{code: "(Prims.FileMode_IsDir " + r.code + ")", ty: Ty{k: kBool}}, nil
@@ -1819,6 +1884,82 @@ func (t *tr) stmts1(list []ast.Stmt, c *ctx, ev *env, d int) (string, error) {
 		be := &ast.BinaryExpr{X: id, OpPos: x.TokPos, Op: op, Y: &ast.BasicLit{ValuePos: x.TokPos, Kind: token.INT, Value: "1"}}
 		return t.assign(x, id, be, false, rest, c, ev, d)
 	case *ast.AssignStmt:
+		if len(x.Lhs) == 2 && len(x.Rhs) == 1 && x.Tok == token.DEFINE {
+			v0, ok0 := x.Lhs[0].(*ast.Ident)
+			v1, ok1 := x.Lhs[1].(*ast.Ident)
+			// _, ok := m[k] on a set
+			if ie, ok := x.Rhs[0].(*ast.IndexExpr); ok && ok0 && ok1 {
+				m, err := t.expr(ie.X, ev)
+				if err != nil {
+					return "", err
+				}
+				if m.ty.k == kStrSet {
+					if v0.Name != "_" {
+						return "", bad(x, "the value of a map[string]struct{} element")
+					}
+					kv, err := t.expr(ie.Index, ev)
+					if err != nil {
+						return "", err
+					}
+					kc, err := t.conv(ie.Index, kv, Ty{k: kString})
+					if err != nil {
+						return "", err
+					}
+					if inTop(ev, v1.Name) {
+						return "", bad(x, "%s redeclared", v1.Name)
+					}
+					if err := ev.declare(x, v1.Name, Ty{k: kBool}); err != nil {
+						return "", err
+					}
+					r, err := t.stmts(rest, c, ev, d)
+					if err != nil {
+						return "", err
+					}
+					if v1.Name == "_" {
+						return r, nil
+					}
+					return fmt.Sprintf("%slet %s := (Prims.set_mem %s %s) in\n%s", ind(d), ev.coqOf(v1.Name), kc, m.code, r), nil
+				}
+			}
+			// stat, ok := fi.Sys().(*types.Stat): a match on the Sys field of the FileInfo record; where the
+			// assertion fails ok is false and stat is nil (any use of it there is untranslatable)
+			if ta, ok := x.Rhs[0].(*ast.TypeAssertExpr); ok && ok0 && ok1 && ta.Type != nil {
+				aty, err := t.typeOf(ta.Type)
+				ce, isCall := ta.X.(*ast.CallExpr)
+				if err == nil && aty.k == kStat && isCall && len(ce.Args) == 0 {
+					if se, ok := ce.Fun.(*ast.SelectorExpr); ok && se.Sel.Name == "Sys" {
+						fv, err := t.expr(se.X, ev)
+						if err != nil {
+							return "", err
+						}
+						if fv.ty.k == kFileInfo && v0.Name != "_" && v1.Name != "_" && !inTop(ev, v0.Name) && !inTop(ev, v1.Name) {
+							evS, evN := ev.clone(), ev.clone()
+							for _, e2 := range []*env{evS, evN} {
+								if err := e2.declare(x, v0.Name, Ty{k: kStat, opt: e2 == evN}); err != nil {
+									return "", err
+								}
+								if err := e2.declare(x, v1.Name, Ty{k: kBool}); err != nil {
+									return "", err
+								}
+							}
+							evS.setKnown(v1.Name, 1)
+							evN.setKnown(v1.Name, 2)
+							a, err := t.stmts(rest, c, evS, d+1)
+							if err != nil {
+								return "", err
+							}
+							b, err := t.stmts(rest, c, evN, d+1)
+							if err != nil {
+								return "", err
+							}
+							return fmt.Sprintf("%smatch (Prims.fi_Sys %s) with\n%s| Some %s =>\n%s  let %s := true in\n%s\n%s| None =>\n%s  let %s := false in\n%s\n%send",
+								ind(d), fv.code, ind(d), evS.coqOf(v0.Name), ind(d), evS.coqOf(v1.Name), a, ind(d), ind(d), evN.coqOf(v1.Name), b, ind(d)), nil
+						}
+					}
+				}
+				return "", bad(x, "type assertion outside the subset (only x, ok := fi.Sys().(*types.Stat))")
+			}
+		}
 		if len(x.Lhs) > 1 && len(x.Rhs) == 1 && (x.Tok == token.DEFINE || x.Tok == token.ASSIGN) {
 			if ce, ok := x.Rhs[0].(*ast.CallExpr); ok {
 				code, res, ok, err := t.callMulti(ce, ev)
@@ -1861,6 +2002,29 @@ func (t *tr) stmts1(list []ast.Stmt, c *ctx, ev *env, d int) (string, error) {
 		id, ok := x.Lhs[0].(*ast.Ident)
 		if !ok && t.stateRecv != "" && x.Tok == token.ASSIGN {
 			// a write into the receiver of a state-transformer method: the field variable is rebuilt
+			if ie, ok := x.Lhs[0].(*ast.IndexExpr); ok {
+				if m, err := t.expr(ie.X, ev); err == nil && m.ty.k == kStrSet {
+					cl, ok := x.Rhs[0].(*ast.CompositeLit)
+					if st, ok2 := func() (*ast.StructType, bool) {
+						if !ok {
+							return nil, false
+						}
+						s, ok := cl.Type.(*ast.StructType)
+						return s, ok
+					}(); !ok2 || (st.Fields != nil && len(st.Fields.List) != 0) || len(cl.Elts) != 0 {
+						return "", bad(x, "value stored in a map[string]struct{} is not struct{}{}")
+					}
+					pseudo, code, err := t.stateLhs(x.Lhs[0], "", ev)
+					if err != nil {
+						return "", err
+					}
+					r, err := t.stmts(rest, c, ev, d)
+					if err != nil {
+						return "", err
+					}
+					return fmt.Sprintf("%slet %s := %s in\n%s", ind(d), ev.coqOf(pseudo), code, r), nil
+				}
+			}
 			lt, err := t.expr(x.Lhs[0], ev)
 			if err != nil {
 				return "", err
@@ -1908,6 +2072,35 @@ func (t *tr) stmts1(list []ast.Stmt, c *ctx, ev *env, d int) (string, error) {
 			var body []ast.Stmt
 			body = append(body, x.Init, &ast.IfStmt{If: x.If, Cond: x.Cond, Body: x.Body, Else: x.Else})
 			return t.stmts(concat(body, popMark, rest), c, ev, d)
+		}
+		// a condition `ok` / `!ok` whose value is fixed on this path (the ok of a type assertion): only the
+		// branch that is taken is translated
+		{
+			var cid *ast.Ident
+			neg := false
+			switch ce := x.Cond.(type) {
+			case *ast.Ident:
+				cid = ce
+			case *ast.UnaryExpr:
+				if id, ok := ce.X.(*ast.Ident); ok && ce.Op == token.NOT {
+					cid, neg = id, true
+				}
+			}
+			if cid != nil {
+				if kb := ev.known(cid.Name); kb != 0 {
+					if _, sh := ev.lookup("true"); !sh {
+						taken := (kb == 1) != neg
+						if taken {
+							return t.stmts(concat([]ast.Stmt{x.Body}, popMark, rest), c, ev, d)
+						}
+						var els []ast.Stmt
+						if x.Else != nil {
+							els = []ast.Stmt{x.Else}
+						}
+						return t.stmts(concat(els, popMark, rest), c, ev, d)
+					}
+				}
+			}
 		}
 		// nil test of a possibly-nil struct pointer: a match that rebinds the variable, as the struct itself, in
 		// the branch where it is not nil (there, and in the copy of the following code, fields can be read)
@@ -2025,7 +2218,37 @@ func (t *tr) stmts1(list []ast.Stmt, c *ctx, ev *env, d int) (string, error) {
 				}
 			}
 		}
-		return "", bad(s, "expression statement outside the subset (only panic(..))")
+		if ce, ok := x.X.(*ast.CallExpr); ok && t.stateRecv != "" && len(ce.Args) == 2 {
+			if id, ok := ce.Fun.(*ast.Ident); ok && id.Name == "delete" {
+				if _, isVar := ev.lookup("delete"); !isVar {
+					m, err := t.expr(ce.Args[0], ev)
+					if err != nil {
+						return "", err
+					}
+					if m.ty.k != kStrSet {
+						return "", bad(s, "delete on %s", m.ty)
+					}
+					kv, err := t.expr(ce.Args[1], ev)
+					if err != nil {
+						return "", err
+					}
+					kc, err := t.conv(ce.Args[1], kv, Ty{k: kString})
+					if err != nil {
+						return "", err
+					}
+					pseudo, code, err := t.stateLhs(ce.Args[0], "(Prims.set_del "+m.code+" "+kc+")", ev)
+					if err != nil {
+						return "", err
+					}
+					r, err := t.stmts(rest, c, ev, d)
+					if err != nil {
+						return "", err
+					}
+					return fmt.Sprintf("%slet %s := %s in\n%s", ind(d), ev.coqOf(pseudo), code, r), nil
+				}
+			}
+		}
+		return "", bad(s, "expression statement outside the subset (only panic(..), delete on a state map)")
 	case *ast.SwitchStmt:
 		return t.switchStmt(x, rest, c, ev, d)
 	case *ast.ForStmt, *ast.RangeStmt:
@@ -2064,6 +2287,18 @@ func (t *tr) stateLhs(lhs ast.Expr, newVal string, ev *env) (string, string, err
 		if err != nil {
 			return "", "", err
 		}
+		if cur.ty.k == kStrSet {
+			// m[k] = struct{}{}: k joins the set
+			kv, err := t.expr(l.Index, ev)
+			if err != nil {
+				return "", "", err
+			}
+			kc, err := t.conv(l.Index, kv, Ty{k: kString})
+			if err != nil {
+				return "", "", err
+			}
+			return t.stateLhs(l.X, "(Prims.set_add "+cur.code+" "+kc+")", ev)
+		}
 		if cur.ty.k != kSlice {
 			return "", "", bad(lhs, "element write on %s", cur.ty)
 		}
@@ -2097,6 +2332,7 @@ func (t *tr) assign(n ast.Node, id *ast.Ident, rhs ast.Expr, define bool, rest [
 	var ty Ty
 	if old, ok := ev.lookup(id.Name); ok && (!define || inTop(ev, id.Name)) {
 		// assignment (or := re-using a variable of the same scope)
+		ev.setKnown(id.Name, 0)
 		ty = old
 		if code, err = t.conv(rhs, v, ty); err != nil {
 			return "", err
